@@ -124,7 +124,13 @@ func TranspileSrc(files map[string]string, main string, target Target) TResult {
 	dir := Scratch("src")
 	defer os.RemoveAll(dir)
 	WriteFiles(dir, files)
-	return TranspilePath(filepath.Join(dir, main), target, 20*time.Second)
+	res := TranspilePath(filepath.Join(dir, main), target, 20*time.Second)
+	if res.TimedOut {
+		// a time-out only counts when the machine is not stalled: wait until it is responsive, then decide with a longer limit
+		WaitResponsive()
+		res = TranspilePath(filepath.Join(dir, main), target, 60*time.Second)
+	}
+	return res
 }
 
 // TranspileSecond writes the files into a scratch directory and transpiles main for target AFTER the same transpiler object
@@ -147,6 +153,20 @@ func TranspileSecond(files map[string]string, main string, target Target) (res T
 	t.Transpile(path, NewConverter(other))
 	s, err := t.Transpile(path, NewConverter(target))
 	return TResult{Script: s, Err: err}
+}
+
+// WaitResponsive blocks until the machine runs a trivial shell script promptly (at most about two minutes). A time-out is only
+// evidence of non-termination if the machine was not stalled at that moment (other jobs, I/O): checks call this before the
+// confirming re-run of a case that hit its watchdog.
+func WaitResponsive() {
+	for i := 0; i < 25; i++ {
+		t0 := time.Now()
+		r := RunBash("x=$(echo ok)\necho $x\n", ExecOpts{Timeout: 10 * time.Second})
+		if !r.TimedOut && time.Since(t0) < 1500*time.Millisecond {
+			return
+		}
+		time.Sleep(4 * time.Second)
+	}
 }
 
 // TranspileOne transpiles a single-file program.
